@@ -168,7 +168,7 @@ def shrink(scn, fails, max_execs=3000, max_seconds=30.0):
                         cands.append(c)
             elif isinstance(v, str):
                 is_hex = isinstance(path[-1], str) and \
-                    path[-1].endswith('hex')
+                    (path[-1].endswith('hex') or path[-1] == '$bytes')
                 step = 2 if is_hex else 1
 
                 if not is_hex:
